@@ -17,11 +17,13 @@ namespace
         bool single = false;
         std::vector<std::size_t> labels, outlets, pits;
         std::vector<double> kernel;
+        std::vector<u64> snaps;  // one digest per graph snapshot of the sequence (tables + accumulate(1))
 
         u64 digest() const
         {
             Hasher h;
             h.pod(s.digest(true));
+            h.seq(snaps);
             h.seq(acc);
             h.seq(labels);
             h.seq(outlets);
@@ -54,6 +56,19 @@ namespace
         }
         if (with_kernel)
             o.kernel = run_depth_kernel(fg, fs::flow_graph_traversal_dir::depth_upstream);
+        // graph snapshots taken inside the sequence are part of the state a caller can observe
+        for (const auto& key : fg.graph_snapshot_keys())
+        {
+            auto& sg = fg.graph_snapshot(key);
+            GState ss = extract_state(sg.impl(), out);
+            ss.out.clear();  // the snapshot has no elevation of its own
+            auto sacc = sg.accumulate(1.0);
+            Hasher h;
+            h.pod(ss.digest(true));
+            for (auto v : sacc)
+                h.pod(v);
+            o.snaps.push_back(h.h);
+        }
         return o;
     }
 
@@ -106,6 +121,8 @@ namespace
             return "pits";
         if (!same_bits(a.kernel, b.kernel))
             return "kernel-output";
+        if (!same_bits(a.snaps, b.snaps))
+            return "graph-snapshot-state";
         return "";
     }
 
@@ -643,7 +660,8 @@ namespace
         std::vector<Program> progs
             = { Program::parse("single"),          Program::parse("multi"),          Program::parse("pflood+single"),
                 Program::parse("pflood+multi"),    Program::parse("single+mst:k:c"), Program::parse("single+mst:b:b"),
-                Program::parse("single+mst:k:c+multi") };
+                Program::parse("single+mst:k:c+multi"), Program::parse("single+gsnap1+multi"),
+                Program::parse("single+gsnap1+mst:b:c+gsnap2") };
         if (ctx.replay_mode)
         {
             auto kv = parse_kv(ctx.args.replay);
